@@ -462,8 +462,8 @@ func (e *Exec) check(extra *Term, prop bool) (SatResult, Model) {
 		m[extra.v0.Name] = pickFrom(ts, 256)
 		return Sat, m
 	}
-	if smallVar(extra) {
-		// domain pre-check: the domain over-approximates the feasible values of an entangled variable
+	if smallVar(extra) && !prop {
+		// domain pre-check (feasibility queries only: property queries always go to the solver): the domain over-approximates the feasible values of an entangled variable
 		if _, any := e.truthSet(extra); !any {
 			e.st.FrontEnd++
 			e.auditFrontEnd(extra, Unsat)
